@@ -76,3 +76,37 @@ def _make(name):
 
 for _name in UNITS:
     register("Transl" + _name)(_make(_name))  # noqa: F821
+
+
+# ---- C10: trellis.py through tools/py2lean_arr.py (array / bitarray / dict tables; monomorphised entry points) --------------
+def _py2lean_arr():
+    spec = importlib.util.spec_from_file_location("py2lean_arr", os.path.join(_HERE, "py2lean_arr.py"))
+    mod = importlib.util.module_from_spec(spec)
+    spec.loader.exec_module(mod)
+    return mod
+
+
+_TR = "okdmr.dmrlib.etsi.fec.trellis"
+TRELLIS = [
+    (_TR, "Trellis34.bits_to_dibits", None),
+    (_TR, "Trellis34.dibits_to_bits", None),
+    (_TR, "Trellis34.deinterleave", None),
+    (_TR, "Trellis34.interleave", None),
+    (_TR, "Trellis34.dibits_to_points", None),
+    (_TR, "Trellis34.points_to_dibits", None),
+    (_TR, "Trellis34.points_to_tribits", None),
+    (_TR, "Trellis34.tribits_to_points", None),
+    (_TR, "Trellis34.tribits_to_bits", None),
+    (_TR, "Trellis34.bits_to_tribits", None),
+    # decode(encoded, as_bytes=False) -> bitarray   /   decode(encoded, as_bytes=True) -> bytes
+    (_TR, "Trellis34.decode", dict(name="decode", consts={"as_bytes": False}, ret="ba")),
+    (_TR, "Trellis34.decode", dict(name="decode_as_bytes", consts={"as_bytes": True}, ret="bytes")),
+    # encode(bitarray) / encode(bytes)
+    (_TR, "Trellis34.encode", dict(name="encode", params={"decoded": "ba"})),
+    (_TR, "Trellis34.encode", dict(name="encode_bytes", params={"decoded": "bytes"})),
+]
+
+
+@register("TranslTrellis")  # noqa: F821
+def gen_transl_trellis():
+    return _py2lean_arr().translate_unit("Trellis", TRELLIS, {}, header=HEADER)  # noqa: F821
